@@ -302,9 +302,45 @@ def bundle(kind, tier, seed):
         meta['model_s'] = round(dt_m, 1)
         if rc2 != 0:
             meta['error'] = 'model driver exited with %d: %s' % (rc2, out2[-500:])
+        if rc2 == 0:
+            try:
+                n_div = graph_overrides(bdir, drv)
+                meta['graph_divergent_cases'] = n_div
+            except Exception as e:       # the strict comparison still stands
+                meta['graph_override_error'] = repr(e)[:300]
         meta['wall_s'] = round(time.time() - t0, 1)
         json.dump(meta, open(meta_p, 'w'))
         return bdir, meta
+
+
+def graph_overrides(bdir, drv, cap=20000):
+    """Cases in which the implementation built another edge list than the model's build(): run the
+    model again on the implementation's edge list (driver: FG_GRAPH_OVERRIDE) -> model_g.txt."""
+    ic, iobs, order, _ = parse_bundle(os.path.join(bdir, 'impl.txt'))
+    _, mobs, _, _ = parse_bundle(os.path.join(bdir, 'model.txt'))
+    ov, cases = [], []
+    for cid in order:
+        kind = ic[cid]['kind']
+        tag = 'E' if kind == 'B' else ('G' if kind in ('X', 'S', 'H', 'Y') else None)
+        if tag is None:
+            continue
+        a, b = iobs.get(cid, {}).get(tag), mobs.get(cid, {}).get(tag)
+        if a is not None and b is not None and a != b and len(ov) < cap:
+            ov.append('%s %s' % (cid, a))
+            cases.append(ic[cid]['line'])
+    if not ov:
+        return 0
+    open(os.path.join(bdir, 'override.txt'), 'w').write('\n'.join(ov) + '\n')
+    open(os.path.join(bdir, 'cases_g.txt'), 'w').write('\n'.join(cases) + '\n')
+    rc, out, _ = sh('FG_GRAPH_OVERRIDE=%s %s %s > %s' % (os.path.join(bdir, 'override.txt'), drv,
+                    os.path.join(bdir, 'cases_g.txt'), os.path.join(bdir, 'model_g.txt')), 3000, cwd=bdir)
+    if rc != 0:
+        try:
+            os.remove(os.path.join(bdir, 'model_g.txt'))
+        except OSError:
+            pass
+        raise RuntimeError('override pass failed: ' + out[-300:])
+    return len(ov)
 
 
 def prune_bundles(keep=8):
@@ -436,6 +472,7 @@ def run_check(prop, tier, seed):
         families=res.get('families', {}), exhaustive=res.get('exhaustive', False),
         exhaustive_scope=res.get('exhaustive_scope', ''), bundle_wall_s=res.get('bundle_wall_s'),
         explanation=spec.get('explanation', ''),
+        modular_cases=res.get('modular_cases', 0),
     )
     ev = dict(property_id=prop, tier=tier, seed=seed, level='proof', coverage=cov,
               assumptions=spec.get('assumptions', []) + ['see DESIGN.md section 10 (trusted base)'],
